@@ -61,8 +61,20 @@ def impl_formulas(c):
         a, b = mv.sparse_mvcapa_penalty(n, p, k, s)
         out["sparse_mvcapa_penalty"] = [float(a), [float(v) for v in b]]
         if p >= 2:
+            mv.intermediate_mvcapa_penalty(n, p, 3 - int(k) if int(k) in (1, 2) else 1, s)  # the same shape was just asked for with another parameter count
             a, b = mv.intermediate_mvcapa_penalty(n, p, k, s)
             out["intermediate"] = [float(a), [float(v) for v in b]]
+            # the documented formula, transcribed independently (scipy's chi-square quantile and density)
+            from scipy.stats import chi2
+
+            nn, pp, kk, ss = int(n), int(p), int(k), float(s)
+            psi_ = math.log(nn)
+            pen = []
+            for j in range(1, pp):
+                cj = chi2.ppf(1 - j / pp, kk)
+                fj = chi2.pdf(cj, kk)
+                pen.append(ss * (2 * (psi_ + math.log(pp)) + j * kk + 2 * pp * cj * fj + 2 * math.sqrt((j * kk + 2 * pp * cj * fj) * (psi_ + math.log(pp)))))
+            out["intermediate_formula"] = [float(v) for v in np.diff(np.array(pen), prepend=0.0, append=pen[-1])]
         a, b = mv.combined_mvcapa_penalty(n, p, k, s)
         out["combined"] = [float(a), [float(v) for v in b]]
         out["pelt_default_penalty"] = [float(PELT.get_default_penalty(n, p))]
@@ -109,6 +121,10 @@ def oracle_formulas(c, r):
     if not close(r["sbs_default_threshold"][0], 2 * p * math.sqrt(psi)):
         return f"seeded binary segmentation default threshold {r['sbs_default_threshold'][0]} is not 2 p sqrt(log n) = {2 * p * math.sqrt(psi)}"
     fams = {"dense": r["dense_mvcapa_penalty"], "sparse": r["sparse_mvcapa_penalty"], "combined": r["combined"]}
+    if "intermediate_formula" in r:
+        got, want = r["intermediate"][1], r["intermediate_formula"]
+        if r["intermediate"][0] != 0.0 or len(got) != len(want) or any(not close(a, b) for a, b in zip(got, want)):
+            return f"intermediate penalty {r['intermediate']} is not the documented formula (0, {want}) for n={n}, p={p}, k={k}, scale={s}"
     if "intermediate" in r:
         fams["intermediate"] = r["intermediate"]
     cum = {}
